@@ -1,5 +1,5 @@
 import TorchDataVerif.Props.PM
-import TorchDataVerif.Proofs.RefinePFSeq
+import TorchDataVerif.Proofs.RefinePFObs
 /-!
 # Refinement link, ParallelMapper side: what the consumer of a `TDV.PM` run sees
 
@@ -170,10 +170,13 @@ theorem pm_noDead_step {c : Cfg} {s s' : State} (hp : c.proc = false) (a : Actio
   case rRet => obtain ⟨_, rfl⟩ := spec_rRet.mp hs; exact hd
   case wIsSet i =>
     obtain ⟨_, rfl⟩ := (spec_wIsSet i).mp hs
-    apply hset; split <;> simp
+    apply hset
+    generalize (if c.proc = true then s.mpstop else s.stop) = b
+    cases b <;> simp
   case wEmpty i =>
     obtain ⟨_, rfl⟩ := (spec_wEmpty i).mp hs
-    apply hset; split <;> simp
+    apply hset
+    cases s.inq.isEmpty <;> simp
   case wGet i =>
     obtain ⟨m, rest, _, _, rfl⟩ := (spec_wGet i).mp hs
     exact hset i _ (by simp)
@@ -237,5 +240,264 @@ theorem pm_noDead {c : Cfg} {s : State} (hp : c.proc = false) (h : Reachable c s
   intro p hp'
   simp only [init, List.mem_replicate] at hp'
   rw [hp'.2]; simp
+
+/-! ## the consumer's history under the hypotheses of the link -/
+
+/-- in order, thread workers, StopIteration terminal, `map_fn = f` total -/
+structure Total (c : Cfg) (f : Nat → Nat) : Prop where
+  inOrder : c.inOrder = true
+  proc : c.proc = false
+  term : c.term = .stop
+  fn : ∀ v, c.fn v = some (f v)
+
+theorem refOut_total {c : Cfg} {f : Nat → Nat} (H : Total c f) : refOut c = c.src.map f := by
+  unfold refOut
+  have : c.fn = fun v => some (f v) := funext H.fn
+  rw [this]
+  induction c.src with
+  | nil => rfl
+  | cons a l ih => simp [ih]
+
+theorem jstar_pf_pm (f m : Nat) : PF.jstar f m = PM.jstar f m := by
+  unfold PM.jstar
+  rcases Nat.eq_zero_or_pos f with h0 | h0
+  · subst h0; rw [PF.jstar_zero]; simp
+  · exact PF.jstar_closed f m h0
+
+theorem pm_outs_take {c : Cfg} {f : Nat → Nat} (H : Total c f) {s : State} (h : Reachable c s) :
+    s.outs = (c.src.map f).take s.outs.length ∧ s.outs.length ≤ c.src.length := by
+  have hp := delivered_prefix_total c s h H.inOrder f H.fn
+  refine ⟨List.prefix_iff_eq_take.mp hp, ?_⟩
+  have := hp.length_le
+  simpa using this
+
+theorem pm_outs_end {c : Cfg} {f : Nat → Nat} (H : Total c f) {s : State} (h : Reachable c s) (hn : 0 < s.nstop) :
+    s.outs = c.src.map f := by
+  have := (complete c s h hn (pm_noDead H.proc h)).2.2.2.2.2.1 H.inOrder
+  rw [this, refOut_total H]
+
+theorem pm_rterr_zero {c : Cfg} {f : Nat → Nat} (H : Total c f) {s : State} (h : Reachable c s) : s.rterr = 0 := by
+  cases hr : s.rterr with
+  | zero => rfl
+  | succ k =>
+    have hd := runtime_error_sound c s h (Or.inr (Or.inr (Or.inr (Or.inr (by omega)))))
+    exact absurd rfl (pm_noDead H.proc h _ hd)
+
+theorem pm_errs_zero {c : Cfg} {f : Nat → Nat} (H : Total c f) {s : State} (h : Reachable c s) : s.errs = 0 := by
+  have hi := inv_reachable h
+  have hg := order_got hi H.inOrder
+  have hl := hi.lenEq
+  have ho := (delivered_prefix c s h H.inOrder).2.1
+  have hfm : ∀ l : List Nat, l.filterMap c.fn = l.map f := by
+    intro l
+    have : c.fn = fun v => some (f v) := funext H.fn
+    rw [this]
+    induction l with
+    | nil => rfl
+    | cons a l ih => simp [ih]
+  rw [hfm] at ho
+  have hlen : s.outs.length = min s.got.length c.src.length := by rw [ho]; simp
+  have h2 : s.got.length ≤ s.pulled := by
+    rcases Nat.eq_zero_or_pos s.got.length with h0 | h0
+    · omega
+    · have hm : s.got.length - 1 ∈ s.got := by rw [hg]; simp; omega
+      have := cnt_ge_got hm
+      have hc := hi.cnt (s.got.length - 1)
+      split at hc <;> omega
+  have h3 := hi.pulledLe
+  simp only [H.term, if_true] at hl
+  rw [hg, count_range] at hl
+  simp only [List.length_range] at hl
+  split at hl <;> omega
+
+theorem pmCount_eq {c : Cfg} {f : Nat → Nat} (H : Total c f) {s : State} (h : Reachable c s) :
+    pmCount s = s.outs.length + s.nstop := by
+  simp only [pmCount, pm_errs_zero H h, pm_rterr_zero H h, Nat.add_zero]
+
+/-- after StopIteration the count of returned calls is at least the length of the source -/
+theorem pm_count_end {c : Cfg} {f : Nat → Nat} (H : Total c f) {s : State} (h : Reachable c s) (hn : 0 < s.nstop) :
+    nextRes (c.src.map f) (pmCount s) = .stop := by
+  have := pm_outs_end H h hn
+  have hc : (c.src.map f).length ≤ pmCount s := by
+    rw [pmCount_eq H h, this]; omega
+  simp [nextRes, List.getElem?_eq_none hc]
+
+/-- a call of `next()` returns what the closed form says, whatever reader, workers and sorter did in the meantime -/
+theorem pm_return {c : Cfg} {f : Nat → Nat} (H : Total c f) {s s' : State} (h : Reachable c s) (a : Action)
+    (hs : step c s a = some s') (x : Res) (hx : pmRet s a = some x) :
+    pmCount s' = pmCount s + 1 ∧ x = nextRes (c.src.map f) (pmCount s) := by
+  have h' := pm_reachable_step h a hs
+  have hstop : s'.outs = s.outs → s'.nstop = s.nstop + 1 → x = .stop →
+      pmCount s' = pmCount s + 1 ∧ x = nextRes (c.src.map f) (pmCount s) := by
+    intro h1 h2 h3
+    have hc' := pmCount_eq H h'
+    have hc := pmCount_eq H h
+    have he := pm_outs_end H h' (by omega)
+    refine ⟨by rw [hc', hc, h1, h2]; omega, ?_⟩
+    have hge : (c.src.map f).length ≤ pmCount s := by rw [hc, ← h1, he]; omega
+    rw [h3]; simp [nextRes, List.getElem?_eq_none hge]
+  cases a <;> simp only [pmRet] at hx <;> try (cases hx; done)
+  case cIsSet =>
+    split at hx
+    · rename_i hc
+      cases hx
+      simp only [step] at hs
+      obtain ⟨_, rfl⟩ := spec_cIsSet.mp hs
+      simp only [hc.2, if_true] at hstop ⊢
+      exact hstop trivial trivial trivial
+    · cases hx
+  case cMpIsSet =>
+    split at hx
+    · rename_i hc
+      cases hx
+      simp only [step] at hs
+      obtain ⟨_, rfl⟩ := spec_cMpIsSet.mp hs
+      simp only [hc.2, if_true] at hstop ⊢
+      exact hstop trivial trivial trivial
+    · cases hx
+  case cMpSet =>
+    split at hx
+    · cases hx
+      simp only [step] at hs
+      obtain ⟨_, rfl⟩ := spec_cMpSet.mp hs
+      exact hstop rfl rfl rfl
+    · cases hx
+  case cRel =>
+    split at hx
+    · rename_i m hc
+      split at hx
+      · rename_i hp
+        rcases (error_after_prefix c s h H.inOrder m hc hp).2 with ⟨v, _, hv⟩ | ⟨_, ht⟩
+        · rw [H.fn v] at hv; cases hv
+        · rw [H.term] at ht; cases ht
+      · cases hx
+    · cases hx
+  case cDeadMpSet =>
+    split at hx
+    · simp only [step] at hs
+      obtain ⟨_, rfl⟩ := spec_cDeadMpSet.mp hs
+      have := pm_rterr_zero H h'
+      simp at this
+    · cases hx
+  case cPop =>
+    simp only [step] at hs
+    obtain ⟨m, y, hc, hp, rfl⟩ := spec_cPop.mp hs
+    simp only [hc, hp, Option.some.injEq] at hx
+    subst hx
+    have ht' := pm_outs_take H h'
+    simp only [List.length_append, List.length_singleton] at ht'
+    have hz : s.nstop = 0 := by
+      rcases Nat.eq_zero_or_pos s.nstop with h0 | h0
+      · exact h0
+      · have := pm_outs_end H h h0
+        have hl := congrArg List.length this
+        simp only [List.length_map] at hl
+        omega
+    have hc' := pmCount_eq H h'
+    have hc0 := pmCount_eq H h
+    simp only [List.length_append, List.length_singleton] at hc'
+    refine ⟨by rw [hc', hc0]; omega, ?_⟩
+    have h1 : (s.outs ++ [y])[s.outs.length]? = some y := by simp
+    rw [ht'.1, List.getElem?_take] at h1
+    have h2 : (c.src.map f)[s.outs.length]? = some y := by simpa using h1
+    rw [hc0, hz, Nat.add_zero]
+    simp [nextRes, h2]
+
+/-- `get_state()` between two calls of `next()` returns the closed form of the number of calls that returned -/
+theorem pm_getState {c : Cfg} {f : Nat → Nat} (H : Total c f) {s : State} (h : Reachable c s) (hidle : s.cpc = .idle) :
+    s.snap = c.base + PF.jstar c.f (min (pmCount s) c.src.length) ∧
+    s.steps = min (pmCount s) c.src.length - PF.jstar c.f (min (pmCount s) c.src.length) := by
+  have hm : min (pmCount s) c.src.length = s.outs.length := by
+    have hle := (pm_outs_take H h).2
+    rw [pmCount_eq H h]
+    rcases Nat.eq_zero_or_pos s.nstop with h0 | h0
+    · omega
+    · have := congrArg List.length (pm_outs_end H h h0)
+      simp only [List.length_map] at this
+      omega
+  rw [hm, jstar_pf_pm]
+  have := state_tracks_consumer c s h H.inOrder (pm_errs_zero H h) hidle
+  simp only [getState, Prod.mk.injEq] at this
+  exact this
+
+/-- **ParallelMapper protocol = closed form.**  From every reachable state, for every sequence of events (every
+interleaving of reader, worker, sorter steps, consumer micro-steps, timeouts and `get_state()` calls), the results of the
+consumer operations that returned are the closed form `spec` over the mapped source. -/
+theorem pmObs_spec {c : Cfg} {f : Nat → Nat} (H : Total c f) : ∀ (evs : List MEv) (s s2 : State) (obs : List Res),
+    Reachable c s → pmObs c s evs = some (s2, obs) →
+    Reachable c s2 ∧
+      obs.map Res.toS = spec c.f c.base ((c.src.map f).map Node.Item.atom) (pmCount s) (obs.map Res.op)
+  | [], s, s2, obs, h, ho => by
+    simp only [pmObs, Option.some.injEq, Prod.mk.injEq] at ho
+    obtain ⟨rfl, rfl⟩ := ho
+    exact ⟨h, rfl⟩
+  | e :: es, s, s2, obs, h, ho => by
+    simp only [pmObs] at ho
+    cases he : pmEStep c s e with
+    | none => simp [he] at ho
+    | some p =>
+      obtain ⟨s1, r⟩ := p
+      simp only [he] at ho
+      cases hr : pmObs c s1 es with
+      | none => simp [hr] at ho
+      | some q =>
+        obtain ⟨s2', rs⟩ := q
+        simp only [hr, Option.some.injEq, Prod.mk.injEq] at ho
+        obtain ⟨rfl, rfl⟩ := ho
+        cases e with
+        | getState =>
+          simp only [pmEStep] at he
+          split at he
+          · rename_i hidle
+            simp only [Option.some.injEq, Prod.mk.injEq] at he
+            obtain ⟨rfl, rfl⟩ := he
+            have ih := pmObs_spec H es s s2' rs h hr
+            refine ⟨ih.1, ?_⟩
+            have hg := pm_getState H h hidle
+            simp only [List.singleton_append, List.map_cons, Res.op, Res.toS, spec, List.length_map]
+            rw [← hg.1, ← hg.2, ih.2]
+          · cases he
+        | act a =>
+          simp only [pmEStep] at he
+          cases hs : step c s a with
+          | none => simp [hs] at he
+          | some s1' =>
+            simp only [hs, Option.some.injEq, Prod.mk.injEq] at he
+            obtain ⟨rfl, rfl⟩ := he
+            have h1 := pm_reachable_step h a hs
+            have ih := pmObs_spec H es s1' s2' rs h1 hr
+            refine ⟨ih.1, ?_⟩
+            cases hx : pmRet s a with
+            | none =>
+              have hsil := pm_silent a hs hx
+              simp only [Hist, Prod.mk.injEq] at hsil
+              have hc : pmCount s1' = pmCount s := by
+                simp only [pmCount, hsil.1, hsil.2.1, hsil.2.2.1, hsil.2.2.2]
+              simpa [hc] using ih.2
+            | some x =>
+              have hret := pm_return H h a hs x hx
+              have hop : x.op = .next := by
+                rw [hret.2]; simp only [nextRes]; cases (c.src.map f)[pmCount s]? <;> rfl
+              simp only [Option.toList, List.singleton_append, List.map_cons, hop, spec]
+              rw [ih.2, hret.1, hret.2, nextRes_toS]
+
+/-- The configuration of one `_ParallelMapperIter` generation (in order, thread workers) over the source list `l` with
+the total `map_fn` `f`: `reset(None)` is `j = 0`; a generation created by `reset((j, k))` has the source reset to
+position `j`. -/
+def pmCfg (N max sf : Nat) (l : List Nat) (f : Nat → Nat) (j : Nat) : Cfg :=
+  { N := N, max := max, f := sf, inOrder := true, proc := false, src := l.drop j, term := .stop,
+    fn := fun v => some (f v), base := j }
+
+theorem pmCfg_total (N max sf : Nat) (l : List Nat) (f : Nat → Nat) (j : Nat) : Total (pmCfg N max sf l f j) f :=
+  ⟨rfl, rfl, rfl, fun _ => rfl⟩
+
+/-- events of a whole run from the start of the generation -/
+def pmRunObs (N max sf : Nat) (l : List Nat) (f : Nat → Nat) (j : Nat) (evs : List MEv) : Option (State × List Res) :=
+  pmObs (pmCfg N max sf l f j) (init (pmCfg N max sf l f j)) evs
+
+theorem pmRunObs_spec {N max sf : Nat} {l : List Nat} {f : Nat → Nat} {j : Nat} {evs : List MEv} {s : State}
+    {obs : List Res} (h : pmRunObs N max sf l f j evs = some (s, obs)) :
+    obs.map Res.toS = spec sf j (((l.drop j).map f).map Node.Item.atom) 0 (obs.map Res.op) :=
+  (pmObs_spec (pmCfg_total N max sf l f j) evs _ s obs ⟨[], rfl⟩ h).2
 
 end TDV.Refine
